@@ -1,6 +1,9 @@
 -- Root of the `ALV` library: every property file (and through them models, specs, lemmas).
 import ALV.Props.C04
+import ALV.Props.C07
 import ALV.Props.C08
+import ALV.Props.C10
+import ALV.Props.C12
 import ALV.Props.C16
 import ALV.Props.C18
 import ALV.Props.C20
